@@ -164,7 +164,7 @@ def coefs_obl(order, core, mult='4.0', onehot=1000, nc=3, np=2, timeout=400, tie
                stubs=['table storage from a static pool (mem->calloc)'], funcs=['cr.c:prepare_poly_fir_coefs'])
 
 
-VR_OPS = {0: 'slew_setup', 1: 'poly_fir_u_step', 2: 'poly_fir_d_step'}
+VR_OPS = {0: 'slew_setup', 1: 'poly_fir_u_step', 2: 'poly_fir_d_step', 4: 'set_io_ratio_during_fade'}
 
 
 def vr_obl(op, slew=None, difbits=20, timeout=400, tiers=('quick', 'thorough')):
@@ -172,7 +172,7 @@ def vr_obl(op, slew=None, difbits=20, timeout=400, tiers=('quick', 'thorough')):
     name = 'vr_%s' % VR_OPS[op]
     if slew is not None:
         defs.append('-DVF_SLEW=%s' % slew); name += '_len%s_d%d' % (str(slew).rstrip('u'), difbits)
-    return Obl(name=name, src='vr_step.c', defs=defs, unwind=5, timeout=timeout, ndebug=False, extra=KISSAT if op == 0 else [], tiers=tiers,
+    return Obl(name=name, src='vr_step.c', defs=defs, unwind=5, timeout=timeout, ndebug=False, extra=KISSAT if op in (0, 4) else [], tiers=tiers,
                desc='vr32.c %s' % VR_OPS[op],
                bounds=('current step and target below 2^44 (ratios up to 4096 in 32.32) with |target - step| < 2^%d, slew length == %s' % (difbits, slew)) if op == 0 else 'any 32.32 position/step, |step_step| < 2^24, <= 3 output frames, <= 8 input samples',
                stubs=['coefficient tables zero (data only)'],
@@ -221,9 +221,9 @@ def init_qq_obl(timeout=600, may_fail=False, kf=None):
                funcs=['cr.c:_soxr_init', 'cr.c:_soxr_close', 'fifo.h:fifo_create', 'fifo.h:fifo_reserve'])
 
 
-def dft_obl(L=1, M=1, dbl=0, simd=0, dftlen=32, timeout=600, tiers=('quick', 'thorough')):
-    return Obl(name='dft_stage_L%d_M%d_%s%s_n%d' % (L, M, 'd' if dbl else 'f', 's' if simd else '', dftlen), src='dft_step.c',
-               defs=['-DVF_L=%d' % L, '-DVF_M=%d' % M, '-DVF_DBL=%d' % dbl, '-DVF_SIMD=%d' % simd, '-DVF_DFTLEN=%d' % dftlen], unwind=dftlen + 4,
+def dft_obl(L=1, M=1, dbl=0, simd=0, dftlen=32, timeout=600, tiers=('quick', 'thorough'), fdm=0):
+    return Obl(name='dft_stage_L%d_M%d%s_%s%s_n%d' % (L, M, 'fd' if fdm else '', 'd' if dbl else 'f', 's' if simd else '', dftlen), src='dft_step.c',
+               defs=['-DVF_FDM=%d' % fdm, '-DVF_L=%d' % L, '-DVF_M=%d' % M, '-DVF_DBL=%d' % dbl, '-DVF_SIMD=%d' % simd, '-DVF_DFTLEN=%d' % dftlen], unwind=dftlen + 4,
                timeout=timeout, tiers=tiers, ndebug=False,
                desc='dft_stage_fn (cr.c): one call from any stage state in ENV(dft): block bookkeeping, phase carry (at / remM), counts, memory safety; L=%d M=%d %s%s' % (L, M, 'double' if dbl else 'float', ', SIMD-style back end' if simd else ''),
                bounds='dft_length == %d, L == %d, M == %d constant; filter length 1..dft_length, phases, FIFO fill symbolic' % (dftlen, L, M),
@@ -231,7 +231,7 @@ def dft_obl(L=1, M=1, dbl=0, simd=0, dftlen=32, timeout=600, tiers=('quick', 'th
 
 
 def dft_set(tier):
-    o = [dft_obl(1, 1), dft_obl(1, 3), dft_obl(1, 3, dbl=1), dft_obl(3, 2), dft_obl(2, 1, simd=1), dft_obl(4, 1, dbl=1)]
+    o = [dft_obl(1, 1), dft_obl(1, 3), dft_obl(1, 3, dbl=1), dft_obl(3, 2), dft_obl(2, 1, simd=1), dft_obl(4, 1, dbl=1), dft_obl(3, 2, fdm=1), dft_obl(1, 4, fdm=1, dbl=1, simd=1)]
     if tier == 'thorough':
         o += [dft_obl(1, 2, dbl=1, simd=1), dft_obl(3, 1, dbl=1), dft_obl(2, 3), dft_obl(8, 1), dft_obl(1, 1, dbl=1, dftlen=64), dft_obl(1, 5, dbl=1), dft_obl(3, 4, dbl=1, simd=1)]
     return o
@@ -251,7 +251,7 @@ def fifo_obls():
 
 def kern_imp_obl(hn, engine='cr32.c'):
     defs = ['-DVF_HN=%d' % hn, '-DVF_ENGINE_C="%s"' % engine] + (['-DVF_SIMD_MODELS'] if engine.endswith('s.c') else [])
-    return Obl(name='kern_impulse_%s_h%d' % (engine.replace('.c', ''), hn), src='kern_imp.c', defs=defs, unwind=70, timeout=300,
+    return Obl(name='kern_impulse_%s_h%d' % (engine.replace('.c', ''), hn), src='kern_imp.c', defs=defs, unwind=70, timeout=300, unwindset=['vf_harness.1:9'],
                desc='half-band kernel h%d of %s on a one-hot input window at a symbolic position: the output is exactly the table coefficient the filter definition pairs with that sample' % (hn, engine),
                bounds='all %d window positions (symbolic); other samples +0.0 (partial sums exact)' % (4 * hn + 8),
                stubs=['SSE shuffles / scalar-lane ops modelled as exact lane operations'] if engine.endswith('s.c') else [],
@@ -260,7 +260,7 @@ def kern_imp_obl(hn, engine='cr32.c'):
 
 def kern_imp_set(tier):
     o = [kern_imp_obl(7), kern_imp_obl(8), kern_imp_obl(9), kern_imp_obl(8, 'cr32s.c'), kern_imp_obl(9, 'cr32s.c')]
-    o += [kern_imp_obl(h, 'cr64.c') for h in ((7, 10, 13) if tier == 'quick' else (7, 8, 9, 10, 11, 12, 13))]
+    o += [kern_imp_obl(h, 'cr64.c') for h in (7, 8, 9, 10, 11, 12, 13)]
     return o
 
 
